@@ -3,7 +3,9 @@ package main
 import (
 	"encoding/json"
 	"fmt"
+	"math"
 	"os"
+	"sort"
 	"strings"
 
 	"verifmc/hx"
@@ -83,8 +85,30 @@ func filterJobs(jobs []opJob) []opJob {
 	return out
 }
 
+// withReversedAttrs: the attribute list of a node is unordered; every job with two or more attributes is
+// also run with the list reversed and must be judged identically.
+func withReversedAttrs(jobs []opJob) []opJob {
+	out := jobs
+	for i := range jobs {
+		j := jobs[i]
+		if len(j.oc.Attrs) < 2 {
+			continue
+		}
+		oc := *j.oc
+		oc.Attrs = make([]hx.Attr, len(j.oc.Attrs))
+		for k, a := range j.oc.Attrs {
+			oc.Attrs[len(oc.Attrs)-1-k] = a
+		}
+		j.oc = &oc
+		j.id += "/attrs-reversed"
+		j.tags = append(append([]string{}, j.tags...), "attrs-reversed")
+		out = append(out, j)
+	}
+	return out
+}
+
 func runOpJobs(c *hx.Checker, jobs []opJob) {
-	jobs = filterJobs(jobs)
+	jobs = withReversedAttrs(filterJobs(jobs))
 	c.ParallelFor(len(jobs), func(i int) {
 		j := &jobs[i]
 		sample := map[string]any{"id": j.id, "domain": j.dom}
@@ -98,55 +122,217 @@ func runOpJobs(c *hx.Checker, jobs []opJob) {
 	})
 }
 
+// extremeInts: attribute / index values at the edges of the 64- and 32-bit ranges.
+var extremeInts = []int64{math.MinInt64, math.MinInt64 + 1, math.MaxInt64, math.MaxInt64 - 1, math.MinInt32, math.MinInt32 - 1, math.MaxInt32, math.MaxInt32 + 1, 1 << 32, -(1 << 32), 1<<32 + 1, 1<<63 - 1<<31}
+
 func tjs(ts ...*ref.T) []*hx.TJ { return hx.ToTJs(ts) }
 
-// runReuseJobs: operator-instance histories of depth 2 and 3. For consecutive op-route jobs of the same
-// node (same operator, same attributes) one operator instance is Init'ed once and then serves
-// the previous job's inputs followed by this job's inputs; the second answer is judged exactly
-// like a fresh one. (An operator whose Apply leaves state behind fails here.)
+// rotatedContents: the same request with the contents of every input rotated by one element (single-element
+// inputs: lowest bit of the payload flipped), i.e. "the same tensor objects holding other values".
+func rotatedContents(oc *hx.OpCase) *hx.OpCase {
+	out := *oc
+	out.Inputs = make([]*hx.TJ, len(oc.Inputs))
+	for i, in := range oc.Inputs {
+		if in == nil {
+			continue
+		}
+		t := in.T()
+		n := len(t.V)
+		v := make([]uint64, n)
+		for k := range v {
+			v[k] = t.V[(k+1)%n]
+		}
+		if n == 1 {
+			v[0] = t.V[0] ^ 1
+			if t.DT == ref.F32 {
+				v[0] = t.V[0] ^ 0x00400000
+			}
+		}
+		out.Inputs[i] = hx.ToTJ(&ref.T{DT: t.DT, Shape: t.Shape, V: v})
+	}
+	return &out
+}
+
+// jobSig: coarse class of a job used to pick diverse predecessors: domain, absent pattern, ranks, dtypes.
+func jobSig(j *opJob) string {
+	var b strings.Builder
+	b.WriteString(string(j.dom))
+	for _, in := range j.oc.Inputs {
+		if in == nil {
+			b.WriteString("|-")
+			continue
+		}
+		fmt.Fprintf(&b, "|%d:%d", in.DT, len(in.Shape))
+	}
+	return b.String()
+}
+
+// reusePairBudget bounds the number of (predecessor, request) pairs per check and tier.
+func reusePairBudget(c *hx.Checker) int {
+	if c.Tier == "thorough" {
+		return 2000000
+	}
+	return 120000
+}
+
+// runReuseJobs: operator-instance histories. Jobs of the same node (same operator, same attributes) form a
+// group; one operator instance is Init'ed once, serves a predecessor request (result discarded, refusals and
+// panics ignored) and then the request under test, which is judged exactly like a fresh one. Predecessors:
+// every other job of the group when the group is small (all ordered pairs), otherwise one job per class
+// (domain x absent-pattern x ranks x dtypes, so refused and vector/scalar/batched requests all occur as
+// predecessors) plus the immediately preceding job; the immediately preceding two jobs give depth 3.
+// A second family keeps the caller's tensor objects instead of the instance: the objects that carried the
+// predecessor's values are refilled in place and carry the request under test (same-signature jobs only).
 func runReuseJobs(c *hx.Checker, jobs []opJob) {
 	jobs = filterJobs(jobs)
-	type pair struct{ prev2, prev, cur int }
-	last := map[string]int{}
-	last2 := map[string]int{}
-	var pairs []pair
+	type pair struct {
+		prev2, prev, cur int
+		refill           int // 0: instance reuse, 1: refill + same instance, 2: refill + fresh instance
+	}
+	groups := map[string][]int{}
+	var order []string
 	for i := range jobs {
 		j := &jobs[i]
 		if j.oc.Route != "op" && j.oc.Route != "" {
 			continue
 		}
-		key := j.oc.Op + "|" + hx.MustJSON(j.oc.Attrs)
-		if p, ok := last[key]; ok {
-			p2 := -1
-			if q, ok2 := last2[key]; ok2 {
-				p2 = q // history of depth 3: two earlier requests served by the same instance
-			}
-			pairs = append(pairs, pair{p2, p, i})
-			last2[key] = p
+		key := j.oc.Op + "|" + hx.AttrsKey(j.oc.Attrs)
+		if _, ok := groups[key]; !ok {
+			order = append(order, key)
 		}
-		last[key] = i
+		groups[key] = append(groups[key], i)
 	}
+	budget := reusePairBudget(c)
+	// small groups get all ordered pairs (smallest first, up to half of the budget) ...
+	bySize := append([]string{}, order...)
+	sort.SliceStable(bySize, func(a, b int) bool { return len(groups[bySize[a]]) < len(groups[bySize[b]]) })
+	full := map[string]bool{}
+	spent, bigJobs := 0, 0
+	for _, k := range bySize {
+		n := len(groups[k])
+		if n <= 12 || (n <= 400 && spent+n*(n-1) <= budget/2) {
+			full[k] = true
+			spent += n * (n - 1)
+		} else {
+			bigJobs += n
+		}
+	}
+	// ... the others one predecessor per class, as many classes as the remaining budget allows
+	maxP := 4
+	if bigJobs > 0 {
+		if m := (budget - spent) / bigJobs; m > maxP {
+			maxP = m
+		}
+		if maxP > 24 {
+			maxP = 24
+		}
+	}
+	var pairs []pair
+	allPairs, classPairs := 0, 0
+	for _, key := range order {
+		g := groups[key]
+		var preds []int
+		if full[key] {
+			preds = g
+			allPairs++
+		} else {
+			seen := map[string]bool{}
+			for _, i := range g {
+				if s := jobSig(&jobs[i]); !seen[s] && len(preds) < maxP {
+					seen[s] = true
+					preds = append(preds, i)
+				}
+			}
+			classPairs++
+		}
+		inPreds := map[int]bool{}
+		for _, p := range preds {
+			inPreds[p] = true
+		}
+		lastSig := map[string]int{}
+		for gi, i := range g {
+			for _, p := range preds {
+				if p != i {
+					pairs = append(pairs, pair{-1, p, i, 0})
+				}
+			}
+			if gi >= 1 && !inPreds[g[gi-1]] {
+				pairs = append(pairs, pair{-1, g[gi-1], i, 0})
+			}
+			if gi >= 2 {
+				pairs = append(pairs, pair{g[gi-2], g[gi-1], i, 0})
+			}
+			// refill: most recent job of the group with identical signature
+			sig := ""
+			for _, in := range jobs[i].oc.Inputs {
+				if in == nil {
+					sig += "|-"
+				} else {
+					sig += fmt.Sprintf("|%d%v", in.DT, in.Shape)
+				}
+			}
+			if p, ok := lastSig[sig]; ok {
+				pairs = append(pairs, pair{-1, p, i, 1}, pair{-1, p, i, 2})
+			}
+			lastSig[sig] = i
+			// and a synthetic predecessor: the same request with every input's contents rotated by one element
+			pairs = append(pairs, pair{-1, -1, i, 3})
+		}
+	}
+	c.Extra["reuse_histories"] = map[string]any{"histories": len(pairs), "groups_all_ordered_pairs": allPairs, "groups_one_predecessor_per_class": classPairs}
 	c.ParallelFor(len(pairs), func(k int) {
 		p := pairs[k]
-		prev, cur := &jobs[p.prev], &jobs[p.cur]
+		cur := &jobs[p.cur]
+		var prev *opJob
+		if p.prev >= 0 {
+			prev = &jobs[p.prev]
+		} else {
+			prev = &opJob{id: "rotated-contents", oc: rotatedContents(cur.oc)}
+		}
 		var chain []*hx.OpCase
 		if p.prev2 >= 0 {
 			chain = append(chain, jobs[p.prev2].oc)
 		}
 		chain = append(chain, prev.oc)
-		id := "reuse(" + prev.id + ")->" + cur.id
+		pre, what := "reuse", "on a reused operator instance: "
 		tags := append([]string{"instance-reuse"}, cur.tags...)
+		switch p.refill {
+		case 1:
+			pre, what = "refill-same-instance", "with the caller's tensor objects refilled in place (same operator instance): "
+			tags = append([]string{"tensor-object-reuse"}, cur.tags...)
+		case 3:
+			pre, what = "refill-rotated", "with the caller's tensor objects first carrying other contents, then refilled in place (same operator instance): "
+			tags = append([]string{"tensor-object-reuse"}, cur.tags...)
+		case 2:
+			pre, what = "refill-fresh-instance", "with the caller's tensor objects refilled in place (fresh operator instance): "
+			tags = append([]string{"tensor-object-reuse"}, cur.tags...)
+		}
+		id := pre + "(" + prev.id + ")->" + cur.id
+		if p.prev2 >= 0 {
+			id = pre + "(" + jobs[p.prev2].id + "," + prev.id + ")->" + cur.id
+		}
 		c.Case(hx.CaseInfo{ID: id, Tags: tags, NonTrivial: true}, func() *hx.Violation {
-			res := hx.RunOpReuse(chain, cur.oc)
+			var res hx.Result
+			rk := "op-reuse"
+			switch p.refill {
+			case 0:
+				res = hx.RunOpReuse(chain, cur.oc)
+			default:
+				res = hx.RunOpRefill(prev.oc, cur.oc, p.refill != 2)
+				rk = fmt.Sprintf("op-refill-%d", p.refill)
+				if res.Phase == "harness" {
+					return hx.OK("refill-not-applicable")
+				}
+			}
 			kind, detail := hx.Judge(cur.dom, res, cur.exp, cur.cmp)
 			if kind == "" {
 				if res.Err != nil {
-					return hx.OK("reuse-refused/" + string(cur.dom))
+					return hx.OK(pre + "-refused/" + string(cur.dom))
 				}
-				return hx.OK("reuse-match/" + string(cur.dom))
+				return hx.OK(pre + "-match/" + string(cur.dom))
 			}
-			return &hx.Violation{Kind: kind, Detail: "on a reused operator instance: " + detail,
-				Replay: map[string]any{"replay_kind": "op-reuse", "chain": chain, "case": cur.oc, "domain": cur.dom, "expected": hx.ToTJs(cur.exp), "cmp": cur.cmp}}
+			return &hx.Violation{Kind: kind, Detail: what + detail,
+				Replay: map[string]any{"replay_kind": rk, "chain": chain, "case": cur.oc, "domain": cur.dom, "expected": hx.ToTJs(cur.exp), "cmp": cur.cmp}}
 		})
 	})
 }
@@ -173,6 +359,27 @@ func init() {
 			return nil
 		}
 		return &hx.Violation{Kind: kind, Detail: detail}
+	}
+	for _, mode := range []int{1, 2, 3} {
+		mode := mode
+		replayers[fmt.Sprintf("op-refill-%d", mode)] = func(raw json.RawMessage) *hx.Violation {
+			var r struct {
+				Chain    []*hx.OpCase `json:"chain"`
+				Case     *hx.OpCase   `json:"case"`
+				Domain   hx.Domain    `json:"domain"`
+				Expected []*hx.TJ     `json:"expected"`
+				Cmp      hx.Cmp       `json:"cmp"`
+			}
+			if err := json.Unmarshal(raw, &r); err != nil || len(r.Chain) == 0 {
+				return &hx.Violation{Kind: "bad-replay", Detail: fmt.Sprint(err)}
+			}
+			res := hx.RunOpRefill(r.Chain[len(r.Chain)-1], r.Case, mode != 2)
+			kind, detail := hx.Judge(r.Domain, res, hx.TJsT(r.Expected), r.Cmp)
+			if kind == "" {
+				return nil
+			}
+			return &hx.Violation{Kind: kind, Detail: detail}
+		}
 	}
 }
 
